@@ -104,6 +104,13 @@ func stdSeqJoin(_ context.Context, joiner, subject rel.Value) (rel.Value, error)
 			if _, isStr := joiner.(rel.String); isStr {
 				return strJoin(joiner, subject)
 			}
+			// An empty first element and an empty joiner say nothing about the kind of
+			// sequence being joined; let the remaining elements decide.
+			for _, v := range subject.Values() {
+				if _, isStr := v.(rel.String); isStr {
+					return strJoin(joiner, subject)
+				}
+			}
 			return arrayJoin(joiner, subject)
 		}
 	case rel.Bytes:
